@@ -21,12 +21,15 @@ import (
 	"sync/atomic"
 	"time"
 
+	"foxverif/gen"
 	"foxverif/kit"
+	"foxverif/ref"
+	"foxverif/route"
 
 	"github.com/tigerwill90/fox"
 )
 
-const rule = "cases = requests of 20 shapes (direct, two parameters, catch-all, hostname, ignored trailing slash, redirect, 404, 405, auto OPTIONS, manual Lookup with own writer, Lookup with nil writer, CloneWith, infix catch-alls with and without following parameters, 405/OPTIONS whose probing backtracks between hostname labels) " +
+const rule = "cases = requests of 23 shapes (direct, two parameters, catch-all, hostname, ignored trailing slash, redirect, 404, 405, auto OPTIONS, manual Lookup with own writer, Lookup with nil writer, CloneWith, infix catch-alls with and without following parameters, 405/OPTIONS whose probing backtracks between hostname labels) " +
 	"each with a unique token in every observable field, in random order; every handler/middleware invocation compares all Context getters with its own request; clones re-read later; " +
 	"distinct by token; non-trivial when the previous user of the pooled context was a request of a different shape (sequential mode) or always (concurrent mode)"
 
@@ -238,7 +241,7 @@ func newWorldWith(run *kit.Run, forward bool) *world {
 	return w
 }
 
-var shapes = []string{"ignored-tsr-static", "infix", "infix2-tsr", "direct", "two", "catchall", "host", "ignored-tsr", "redirect", "404", "405", "options", "options-star", "lookup", "lookup-nil", "clonewith", "static-then-param", "infix-then-params", "405-hostparam", "options-hostparam"}
+var shapes = []string{"ignored-tsr-static", "infix", "infix2-tsr", "direct", "two", "catchall", "host", "ignored-tsr", "redirect", "404", "405", "options", "options-star", "lookup", "lookup-nil", "clonewith", "static-then-param", "infix-then-params", "405-hostparam", "options-hostparam", "txn-lookup", "txn-lookup-nil", "writetxn-lookup"}
 
 type respW struct {
 	h      http.Header
@@ -297,7 +300,7 @@ func (w *world) issue(n int64, shape string) *expect {
 	method, host, path := "GET", "", ""
 	P := func(k, v string) fox.Param { return fox.Param{Key: k, Value: v} }
 	switch shape {
-	case "direct", "lookup", "lookup-nil", "clonewith":
+	case "direct", "lookup", "lookup-nil", "clonewith", "txn-lookup", "txn-lookup-nil", "writetxn-lookup":
 		path, e.pattern, e.params = "/d/"+tok, "/d/{tok}", []fox.Param{P("tok", tok)}
 	case "two":
 		path, e.pattern, e.params = "/two/a"+tok+"/"+tok+"/x", "/two/{a}/{tok}/x", []fox.Param{P("a", "a"+tok), P("tok", tok)}
@@ -345,17 +348,30 @@ func (w *world) issue(n int64, shape string) *expect {
 	req = req.WithContext(context.WithValue(context.Background(), expKey{}, e))
 	e.req = req
 	switch shape {
-	case "lookup", "lookup-nil":
+	case "lookup", "lookup-nil", "txn-lookup", "txn-lookup-nil", "writetxn-lookup":
 		var own fox.ResponseWriter
 		rw := &respW{h: http.Header{"X-Own": {tok}}}
-		if shape == "lookup" {
+		if shape == "lookup" || shape == "txn-lookup" {
 			// a caller-supplied writer implementing fox.ResponseWriter on its own
 			ow := &ownW{respW: rw}
 			ow.WriteHeader(statusOf(tok))
 			_, _ = ow.Write([]byte(tok))
 			own = ow
 		}
-		rte, cc, tsr := w.f.Lookup(own, req)
+		var rte *fox.Route
+		var cc fox.ContextCloser
+		var tsr bool
+		switch shape {
+		case "txn-lookup", "txn-lookup-nil":
+			// the same manual lookup through a read-only transaction
+			_ = w.f.View(func(t *fox.Txn) error { rte, cc, tsr = t.Lookup(own, req); return nil })
+		case "writetxn-lookup":
+			t := w.f.Txn(true)
+			rte, cc, tsr = t.Lookup(own, req)
+			t.Abort()
+		default:
+			rte, cc, tsr = w.f.Lookup(own, req)
+		}
 		if rte == nil || tsr {
 			e.fail("Lookup found no direct route")
 			return e
@@ -479,6 +495,7 @@ func main() {
 	runtime.GOMAXPROCS(1)
 	sequential(run, newWorld(run), 0, int64(run.Pick(20000, 5000000)))
 	sequential(run, newWorldWith(run, true), 1<<40, int64(run.Pick(8000, 1500000)))
+	generated(run)
 	run.SetExtra("shape_pairs", fmt.Sprintf("every ordered pair of the %d request shapes is issued back to back at GOMAXPROCS=1 (the second request gets the context just released by the first) before the random phase; repeated on a router whose middleware forwards a CloneWith copy of the context on every scope", len(shapes)))
 }
 
@@ -559,4 +576,97 @@ func concurrent(run *kit.Run) {
 	wg.Wait()
 	w.checkClones("at the end")
 	run.Sample(map[string]any{"mode": "16 goroutines issuing tokenised requests while a writer replaces the tree", "requests": n})
+}
+
+// generated: the fixed router of the shape phases cannot contain every structure that keeps state in a pooled
+// context (backtracking stacks, hostname / path sub-lookups). Here random route sets are built and a shuffled
+// sequence of requests - instantiations of the patterns, perturbations, sub-paths that start after a wildcard
+// segment, hosts that enter the hostname tree and miss - is served twice on one goroutine at GOMAXPROCS=1, so each
+// request runs on the context the previous one released. What the handler that ran saw (kind, route, parameters)
+// must be what the reference matcher says for THIS request alone.
+func generated(run *kit.Run) {
+	sets := run.Pick(3000, 100000)
+	r := run.Rand(77)
+	var served int64
+	for s := 0; s < sets; s++ {
+		pf := gen.DefaultProfile
+		if r.IntN(2) == 0 {
+			pf = gen.HostProfile
+		}
+		pf.MaxRoutes = 8
+		c := route.GenCase(r, route.GenOpts{Profile: pf, Probes: 10, Methods: []string{"GET", "POST"}})
+		if len(c.Routes) == 0 {
+			continue
+		}
+		nPlain := len(c.Reqs)
+		var firsts []string
+		for _, rs := range c.Routes {
+			if !strings.HasPrefix(rs.Pattern, "/") && rs.Pattern[0] != '{' {
+				firsts = append(firsts, rs.Pattern[:1])
+			}
+		}
+		for _, rs := range c.Routes {
+			host, path, _ := gen.Instantiate(r, rs.Pattern)
+			segs := strings.Split(path, "/")
+			for i := 2; i < len(segs); i++ {
+				if r.IntN(2) == 0 {
+					continue
+				}
+				h := []string{"", host, "zz"}[r.IntN(3)]
+				if len(firsts) > 0 && r.IntN(2) == 0 {
+					// a host without dots that shares its first byte with a registered hostname: enters the hostname tree, misses
+					h = firsts[r.IntN(len(firsts))] + "bcdefghij"
+				}
+				c.Reqs = append(c.Reqs, route.Req{Method: rs.Method, Host: h, Path: "/" + strings.Join(segs[i:], "/")})
+			}
+		}
+		b, err := route.Build(c)
+		if err != nil {
+			run.Inconclusive("fox.New: %v", err)
+			return
+		}
+		order := append(r.Perm(len(c.Reqs)), r.Perm(len(c.Reqs))...)
+		// and every derived probe right after three random plain ones
+		for i := nPlain; i < len(c.Reqs); i++ {
+			for k := 0; k < 3 && nPlain > 0; k++ {
+				order = append(order, r.IntN(nPlain), i)
+			}
+		}
+		prev := "none"
+		for _, qi := range order {
+			q := c.Reqs[qi]
+			if gen.HasEmptySegment(q.MatchPath()) {
+				continue
+			}
+			id := c.RoutesString() + "|" + q.String()
+			full := b.Ref(q)
+			direct := ref.LookupDirect(b.ByMethod[q.Method], q.Host, q.MatchPath())
+			var sv route.ServeObs
+			if run.Guard("generated-panic|"+id, c, func() { sv = b.Serve(q) }) {
+				continue
+			}
+			served++
+			if full.Unspec || direct.Unspec {
+				continue
+			}
+			run.Case("generated|"+id+"|after "+prev, true)
+			fail := func(why string) {
+				run.Violate("leak|generated|"+id, fmt.Sprintf("%s\nroutes: %s\nrequest: %s (served right after: %s)\nreference for this request: direct=%q %v slash-adjusted=%q\nthe handler that ran saw: kind=%q pattern=%q params=%v route-nil=%t",
+					why, c.RoutesString(), q, prev, direct.Pattern, direct.Params, full.Pattern, sv.Seen.Kind, sv.Seen.CtxPattern, sv.Seen.Params, sv.Seen.RouteNil), c)
+			}
+			switch {
+			case direct.Pattern != "" && !(full.Tsr && full.ViaHost):
+				if sv.Seen.Kind != "route" || sv.Seen.CtxPattern != direct.Pattern || !route.SameParams(sv.Seen.Params, direct.Params) {
+					fail("the context handed to the handler does not describe the current request")
+				}
+			case direct.Pattern == "":
+				// no route serves it (no slash option is enabled): the no-route handler runs and its context exposes nothing
+				if sv.Seen.Kind != "noroute" || !sv.Seen.RouteNil || sv.Seen.CtxPattern != "" || len(sv.Seen.Params) != 0 {
+					fail("no route serves this request, yet the context shows a route or parameters (of an earlier request)")
+				}
+			}
+			prev = q.String()
+		}
+	}
+	run.Count("generated_sequence_requests", served)
 }
